@@ -87,7 +87,9 @@ impl C18 {
     /// optionally perturbed. At most 160 characters.
     pub fn nested_text(&self, r: &mut Rng, idx: u64) -> String {
         const OPEN: [(&str, &str); 8] = [("(", ")"), ("[", "]"), ("f(", ")"), ("not(", ")"), ("[a, ", "]"), ("(a, ", ")"), ("g(a, ", ")"), ("[a | ", "]")];
-        let cores = ["a", "a(b)", "$X", "a, b", "a; b", "p($X), q($Y)", "$X = 1", "", "1.5", "[]"];
+        let cores = ["a", "a(b)", "$X", "a, b", "a; b", "p($X), q($Y)", "$X = 1", "", "1.5", "[]",
+                     // an infix between bracketed or parenthesised parts
+                     "[b] + [c]", "f(a) - g(b)", "[] * []", "(a) / (b)", "[b] == [c]", "[a | $T] = [b]", "$X + [c]"];
         let core = cores[r.below(cores.len())];
         // the first cases walk every opener kind at every depth that fits
         let (kinds, depth): (Vec<usize>, usize) = if idx < 8 * 75 { (vec![(idx % 8) as usize], 1 + (idx / 8) as usize) }
